@@ -317,3 +317,13 @@ Proof.
          {| c_trusted := true; c_names := [s_ [121]%Z] |}.
   repeat split.
 Qed.
+
+(* ---------- the handshake of a wss:// URL ---------- *)
+Lemma handshake_ok_sound t c :
+  handshake_ok t c = true ->
+  t_skip t = true \/
+  (c_trusted c = true /\ valid_for c (match t_servername t with [] => t_domain t | n => n end) = true).
+Proof.
+  unfold handshake_ok. destruct (t_skip t); [left; reflexivity|]. cbn [orb].
+  intros H. apply andb_true_iff in H. right. exact H.
+Qed.
